@@ -34,6 +34,11 @@ class Run:
         self.desc = desc
         self.rng = random.Random(desc['seed'])
         self.net = NET.Net(desc['lenreq'], desc['frag_client'], desc['frag_server'], lease=desc.get('lease', False))
+        if desc.get('gated'):
+            # blocked writers: frames pile up in the send queues and leave when the harness grants permits
+            for side in ('client', 'server'):
+                self.net.t[side].gated = True
+                self.net.t[side].permit(2)        # SETUP / first frames
         self.queued = {'client': [], 'server': []}
         self.k = 0
         self.inter = []           # interactions
@@ -57,6 +62,10 @@ class Run:
         self.k += 1
         rng = self.rng
         tag = b'%s%d|' % (kind.encode(), self.k)
+        if kind in ('E', 'U', 'R') and rng.random() < 0.15:
+            # an element that is metadata only (data empty): still an element, only "both empty" means none
+            md = payload_bytes(self.k + 1000, b'M' + tag, rng.choice([0, 5, 70]))
+            return Payload(b'', md), (md, b'')
         d = payload_bytes(self.k, tag, rng.choice(SIZES))
         md = b'' if rng.random() < 0.6 else payload_bytes(self.k + 1000, b'M' + tag, rng.choice([0, 5, 70, 150]))
         return Payload(d, md), (md, d)
@@ -196,25 +205,33 @@ class Run:
                     live = [it for it in self.inter if not it['done']]
                     if live:
                         self.progress(rng.choice(live))
+                elif self.desc.get('gated') and x < 0.75:
+                    net.t[rng.choice(['client', 'server'])].permit(rng.choice([1, 1, 2, 3, 8]))
+                    net.loop.settle()
                 else:
                     to = rng.choice(['client', 'server'])
                     p = net.t[net.other(to)].pending()
                     if p:
                         n = rng.choice([1, 1, 1, 2, 3, 4, 7, 9, 30, 64, 65, 300, p]) if net.lenreq else rng.choice([1, 1, 2, 3])
                         net.deliver(to, max(1, min(n, p)))
-            # drain: everything still planned happens, everything written is delivered
-            for _ in range(3000):
+            # drain: everything still planned happens, everything queued is written, everything written is delivered
+            idle = 0
+            for _ in range(6000):
+                if self.desc.get('gated'):
+                    for side in ('client', 'server'):
+                        net.t[side].permit(rng.choice([1, 2, 5]))
+                    net.loop.settle()
                 net.flush(rng)
                 if net.lease is not None and net.ep['client']._request_queue.qsize():
                     self.grant(rng.choice([1, 2, 1000]))
                     continue
-                live = [it for it in self.inter if not it['done']]
-                if not live:
-                    break
                 moved = False
-                for it in live:
+                for it in [i for i in self.inter if not i['done']]:
                     moved = self.progress(it, force=True) or moved
-                if not moved and not any(net.t[s].pending() for s in ('client', 'server')):
+                busy = moved or any(net.t[s].pending() for s in ('client', 'server')) or \
+                    any(not net.ep[s]._send_queue.empty() for s in ('client', 'server'))
+                idle = 0 if busy else idle + 1
+                if idle >= 3:
                     break
             net.flush(rng)
             self.check()
@@ -317,7 +334,7 @@ def mk_descs(rng, n):
     for _ in range(n):
         out.append({'seed': rng.randrange(1 << 30), 'lenreq': rng.random() < 0.65,
                     'frag_client': rng.choice([None, 64, 64, 100]), 'frag_server': rng.choice([None, 64, 64, 100]),
-                    'interactions': rng.randint(2, 8), 'steps': rng.randint(20, 120), 'lease': rng.random() < 0.25})
+                    'interactions': rng.randint(2, 8), 'steps': rng.randint(20, 120), 'lease': rng.random() < 0.25, 'gated': rng.random() < 0.45})
     return out
 
 
@@ -358,6 +375,7 @@ def correspond(ctx, corr, model_ok):
             corr.oracle_failures.append({'what': 'exception-escaped', 'run': d, 'detail': run.result['escaped'][:2]})
         corr.count('framing:' + ('stream' if d['lenreq'] else 'message'))
         corr.count('with lease', 1 if d.get('lease') else 0)
+        corr.count('blocked writers', 1 if d.get('gated') else 0)
         corr.count('interactions', len(run.inter))
         for it in run.inter:
             corr.count('%s started by %s' % (it['kind'], it['side']))
